@@ -332,7 +332,12 @@ func (a *PerpAgent) Step(s *Sim) {
 			if m.Position == perpetualtypes.Position_SHORT {
 				f = 1.01 + r.Float64()*0.5
 			}
-			s.SendTx(u, "perp/update_sl", &perpetualtypes.MsgUpdateStopLoss{Creator: u.Addr.String(), Id: m.Id, Price: price.Mul(decFromFloat(f))})
+			slp := price.Mul(decFromFloat(f))
+			if r.IntN(4) == 0 {
+				slp = sdkmath.LegacyZeroDec() // 0 = no stop loss (the CLI default)
+				s.Stats.Probe("perp_stop_loss_cleared_submitted")
+			}
+			s.SendTx(u, "perp/update_sl", &perpetualtypes.MsgUpdateStopLoss{Creator: u.Addr.String(), Id: m.Id, Price: slp})
 		default:
 			f := 1.03 + r.Float64()*3
 			if m.Position == perpetualtypes.Position_SHORT {
